@@ -79,6 +79,15 @@ def get_fingerprinted_hostname(url, infer_redirection=True, strip_suffix=False):
 def fingerprint_url(url, unsplit=True, strip_suffix=False, platform_aware=False):
     url = url.lower()
 
+    # NOTE: unquoting can reveal upper-case letters ('%49ndex.html') that matter
+    # to the normalization heuristics, hence a first pass before the actual one
+    url = normalize_url(
+        url,
+        strip_protocol=False,
+        query_item_filter=lang_query_item_filter,
+        platform_aware=platform_aware,
+    ).lower()
+
     splitted = normalize_url(
         url,
         unsplit=False,
